@@ -7,7 +7,7 @@
      (seek to Sizeof*(uid-1)+Offsetof(field), then binary.Write of the field value). *)
 From Coq Require Import String Ascii.
 From Verif Require Import Base.Common Base.Layout Base.RecFile Model.C01_Frozen.
-From Verif Require Gen.Layout_default Gen.Layout_docker Gen.Consts_default Gen.Consts_docker.
+From Verif Require Gen.Layout_default Gen.Layout_docker Gen.Consts_default Gen.Consts_docker Gen.BinArgs_default Gen.BinArgs_docker.
 Open Scope Z_scope.
 
 (* ------------------------------------------------------------------ type descriptions *)
@@ -196,6 +196,17 @@ Definition strict_disk_records : list string :=
 Definition disk_records : list string := (strict_disk_records ++ ["FavBoard"%string])%list.
 Definition mapped_records_any_cfg : list string := ["MsgQueueRaw"]%string.
 Definition mapped_records_docker : list string := ["UserInfoRaw"; "SHMRaw"]%string.
+
+(* what the source hands to encoding/binary (Gen/BinArgs_<cfg>.v, regenerated from the type-checked syntax) *)
+Definition bin_raw_structs (c : cfg) : list string :=
+  match c with Default => Gen.BinArgs_default.binary_rw_structs | Docker => Gen.BinArgs_docker.binary_rw_structs end.
+Definition bin_padded_structs (c : cfg) : list string :=
+  match c with Default => Gen.BinArgs_default.binrw_structs | Docker => Gen.BinArgs_docker.binrw_structs end.
+Definition bin_passthrough (c : cfg) : list string :=
+  match c with Default => Gen.BinArgs_default.bin_passthrough | Docker => Gen.BinArgs_docker.bin_passthrough end.
+Definition bin_other (c : cfg) : list string :=
+  match c with Default => Gen.BinArgs_default.bin_other | Docker => Gen.BinArgs_docker.bin_other end.
+Definition mem_str (n : string) (l : list string) : bool := existsb (String.eqb n) l.
 
 (* types.BinWrite(file, v, theSize): the packed image followed by theSize - binary.Size(v) zero bytes *)
 Definition binwrite_len (packed theSize : Z) : Z := if theSize <? packed then packed else theSize.
